@@ -50,6 +50,16 @@ class Pred:
         return 'Pred(%s)' % self.desc
 
 
+class NoCalib:
+    """Exact expectation for bnum that must not be compared with the Rust primitive: the primitive's own implementation
+    is known to deviate from the property's specification on this input (documented at each use)."""
+    def __init__(self, inner):
+        self.inner = inner
+
+    def __repr__(self):
+        return 'NoCalib(%r)' % (self.inner,)
+
+
 class X:
     """An observed bit pattern of a bnum value: unsigned pattern p, width w bits."""
     __slots__ = ('p', 'w')
@@ -258,6 +268,8 @@ def matches(exp, obs):
     """Does the observed outcome satisfy the expectation?"""
     if exp is ANY:
         return True
+    if isinstance(exp, NoCalib):
+        return matches(exp.inner, obs)
     if exp is NOPANIC:
         return obs != PANIC
     if isinstance(exp, OneOf):
